@@ -288,9 +288,17 @@ func addReference(
 	}
 
 	refCommit, _ := GetCommit(repoStorer, ref.Hash())
-	if refCommit == nil {
-		// if it's not a commit - skip it.
-		return nil
+	// an annotated tag stands for the commit it (eventually) points to,
+	// as in `git log --all`.
+	for h := ref.Hash(); refCommit == nil; {
+		tag, err := GetTag(repoStorer, h)
+		if err != nil {
+			// neither a commit nor a tag of a commit - skip it.
+			return nil
+		}
+
+		h = tag.Target
+		refCommit, _ = GetCommit(repoStorer, h)
 	}
 
 	var (
